@@ -1467,8 +1467,12 @@ class SpaceManager(SharedSpaceOperations):
             name = source.name
 
         data = {k: v for k, v in source.data.items() if k in source.input_keys}
-        return self.new_cells(space, name=name, formula=source.formula,
-                       data=data, is_derived=False)
+        cells = self.new_cells(space, name=name, formula=source.formula,
+                       data=data, is_derived=False,
+                       is_cached=source.is_cached)
+        if source.allow_none is not None:
+            self.set_cells_allow_none(cells, source.allow_none)
+        return cells
 
     def rename_cells(self, cells, name):
         """Renames the Cells name"""
